@@ -20,6 +20,6 @@ for d in sorted(os.listdir(os.path.join(V, "seeded"))):
 table = "\n".join(rows)
 p = os.path.join(V, "DESIGN.md")
 s = open(p).read()
-s = re.sub(r"<!-- SEEDED-TABLE -->.*?<!-- /SEEDED-TABLE -->", "<!-- SEEDED-TABLE -->\n" + table + "\n<!-- /SEEDED-TABLE -->", s, flags=re.S) if "<!-- /SEEDED-TABLE -->" in s else s.replace("<!-- SEEDED-TABLE -->", "<!-- SEEDED-TABLE -->\n" + table + "\n<!-- /SEEDED-TABLE -->")
+s = re.sub(r"<!-- SEEDED-TABLE -->.*?<!-- /SEEDED-TABLE -->", lambda m: "<!-- SEEDED-TABLE -->\n" + table + "\n<!-- /SEEDED-TABLE -->", s, flags=re.S) if "<!-- /SEEDED-TABLE -->" in s else s.replace("<!-- SEEDED-TABLE -->", "<!-- SEEDED-TABLE -->\n" + table + "\n<!-- /SEEDED-TABLE -->")
 open(p, "w").write(s)
 print(len(rows) - 2, "rows")
